@@ -17,8 +17,8 @@ Definition body_okb (h : Header) (b : Body) : bool :=
         forallb (fun kv => (zlen (fst kv) <=? 65535) && (zlen (olist (snd kv)) <=? 2147483647)) (bd_CustomPayload b) &&
         nodup_keysb (bd_CustomPayload b)
    else is_nil (bd_CustomPayload b)) &&
-  (if has fl HeaderFlagWarning
-   then msg_is_response (bd_Message b) && (4 <=? v) &&
+  (if has fl HeaderFlagWarning && msg_is_response (bd_Message b)
+   then (4 <=? v) &&
         match bd_Warnings b with
         | Some l => (zlen l <=? 65535) && forallb (fun s => zlen s <=? 65535) l
         | None => false
@@ -41,7 +41,7 @@ Definition frame_normal (f : Frame) (body_length : Z) : Frame :=
   let h := f_Header f in let b := f_Body f in
   {| f_Header := with_body_length h body_length;
      f_Body := {| bd_TracingId := bd_TracingId b; bd_CustomPayload := bd_CustomPayload b;
-                  bd_Warnings := (if has (h_Flags h) HeaderFlagWarning then bd_Warnings b else None);
+                  bd_Warnings := (if has (h_Flags h) HeaderFlagWarning && msg_is_response (bd_Message b) then bd_Warnings b else None);
                   bd_Message := norm_message (h_Version h) (bd_Message b) |} |}.
 
 Definition header_length (version : Z) : Z := if Z.geb version 3 then 9 else 8.
